@@ -477,6 +477,8 @@ func (c *Channel) onHandshake() {
 	func() {
 		c.mu.Lock()
 		defer c.mu.Unlock()
+		// a handshake that has outlived its session must not be retransmitted for ever
+		c.expireSessions(time.Now())
 		for _, se := range c.sessions {
 			if se.Session != nil && !se.Session.IsReady() {
 				out := se.Session.Handshake(nil)
